@@ -559,6 +559,9 @@ func Run(args []string) int {
 	nAgg := fs.Int("nagg", 100, "number of multi-filter cases (aggregation, order, counts)")
 	nRaw := fs.Int("nraw", 100, "number of raw adversarial texts (correspondence only)")
 	nFlags := fs.Int("nflags", 60, "number of generated command lines")
+	nPlat := fs.Int("nplat", 120, "number of platform cases (generated nodes / namespaces through the real Collect)")
+	nHist := fs.Int("nhist", 40, "number of handler histories (real eventHandlerImpl + real change processor + real Collect after every batch)")
+	nBatch := fs.Int("nbatch", 7, "batches per handler history")
 	gw := fs.String("gw", "", "path of the gateway binary built with the C19 overlay hook")
 	corpus := fs.String("corpus", "", "directory of regression snippets (<ctx>__name files), run first")
 	if err := fs.Parse(args); err != nil {
@@ -661,6 +664,15 @@ func Run(args []string) int {
 
 	if *gw != "" && *nFlags > 0 {
 		e.runFlags(r.Fork(), *gw, *nFlags)
+	}
+
+	// task C19-truth: platform string and handler histories (truth.go)
+	if *nPlat > 0 {
+		e.runPlatform(r.Fork(), *nPlat)
+	}
+	hr := r.Fork()
+	for i := 0; i < *nHist && e.anomalies < 12; i++ {
+		e.runHistory(i, hr.Fork(), *nBatch)
 	}
 	if e.anomalies >= 12 {
 		fmt.Fprintln(os.Stderr, "c19: stopped early after 12 anomalies")
